@@ -336,8 +336,17 @@ func (em *emitter) emitAssignmentOperation(addr address, rh ast.Expression) {
 
 	// Emit the code that evaluates the right side of the assignment.
 	// TODO: use k?
-	b := em.fb.newRegister(typ.Kind())
-	em.emitExprR(rh, typ, b)
+	var b int8
+	if addr.operator == ast.AssignmentLeftShift || addr.operator == ast.AssignmentRightShift {
+		// The shift count has its own type: converting it to the type of
+		// the left side would truncate it.
+		rhTyp := em.typ(rh)
+		b = em.fb.newRegister(rhTyp.Kind())
+		em.emitExprR(rh, rhTyp, b)
+	} else {
+		b = em.fb.newRegister(typ.Kind())
+		em.emitExprR(rh, typ, b)
+	}
 
 	// Emit the code that computes the result of the operation; such result will
 	// be put back into the left side.
